@@ -1,6 +1,7 @@
 package props
 
 import (
+	"io"
 	"github.com/caddyserver/caddy/v2"
 	"bytes"
 	"fmt"
@@ -119,6 +120,7 @@ func runC12(t *testing.T, e *worlds.Env, tier string) (bool, any) {
 	var modelB *worlds.ConnModel
 	aborted := false
 	var silentFor time.Duration
+	var ppTimeout time.Duration
 	var ipPost *layer4.MatchRemoteIP
 	splitAt := 0
 	var hdr2 *PPHeader
@@ -205,6 +207,12 @@ func runC12(t *testing.T, e *worlds.Env, tier string) (bool, any) {
 				hs = append(hs, b.Handler(&m0, sig))
 			}
 			ph := HSpec{Kind: "pp", Name: "pp", Allow: allow}
+			if mode == 0 && tp.Prob(1, 3, "pp-timeout") {
+				// the handler's timeout option bounds the wait for the header, nothing else
+				ppTimeout = time.Duration(tp.Pick("pp-timeout-ms", 1000, 250, 5000)) * time.Millisecond
+				ph.PPTimeout = ppTimeout
+				sample.Header += fmt.Sprintf(" handler-timeout=%v", ppTimeout)
+			}
 			hs = append(hs, b.Handler(&ph, sig))
 			model.App = append(append([]byte(nil), hdrBytes...), payload...)
 			if allowed {
@@ -353,6 +361,25 @@ func runC12(t *testing.T, e *worlds.Env, tier string) (bool, any) {
 			plan.Chunks[len(plan.Chunks)-1].Delay = 6 * time.Second
 			sample.ClientEnd += "last chunk after 6s, then "
 		}
+		if mode == 0 && ppTimeout > 0 && len(plan.Chunks) >= 2 && len(payload) > 0 && tp.Prob(2, 3, "late-payload") {
+			// the header arrives in time; the last part of the payload only after the header timeout
+			late := ppTimeout + time.Duration(tp.Pick("late-extra-ms", 50, 1, 900))*time.Millisecond
+			li := len(plan.Chunks) - 1
+			start := 0
+			for _, ch := range plan.Chunks[:li] {
+				start += ch.N
+			}
+			if start >= len(hdrBytes) {
+				plan.Chunks[li].Delay = late
+				sample.ClientEnd += "last chunk after the header timeout, then "
+			} else if k := len(hdrBytes) - start; plan.Chunks[li].N > k {
+				// the late piece is payload only
+				rest := plan.Chunks[li].N - k
+				plan.Chunks[li].N = k
+				plan.Chunks = append(plan.Chunks, worlds.Chunk{N: rest, Delay: late})
+				sample.ClientEnd += "last chunk after the header timeout, then "
+			}
+		}
 		plan.End = worlds.EndHalfClose
 		sample.ClientEnd += "half-close"
 		if mode != 1 && tp.Prob(1, 8, "abort-mid-header") {
@@ -421,6 +448,9 @@ func runC12(t *testing.T, e *worlds.Env, tier string) (bool, any) {
 					entered = true
 				}
 			}
+			if ppTimeout > 0 && !calledHandler(model, "ppdone") {
+				entered = true // the handler's own timeout may have expired on a slow network: not judged
+			}
 			if !entered {
 				fail("addresses", "after the header (declaring source %v) the route guarded by remote_ip %v never ran: the shipped ip matcher did not see the declared address", hdr.Src, hdr.Src.IP)
 				return
@@ -445,6 +475,18 @@ func runC12(t *testing.T, e *worlds.Env, tier string) (bool, any) {
 				}
 				if s.PHRemote != effSrc || s.PHLocal != effDst {
 					fail("placeholders", "placeholders after proxy_protocol: l4.conn.remote_addr=%s l4.conn.local_addr=%s; expected %s / %s", s.PHRemote, s.PHLocal, effSrc, effDst)
+					return
+				}
+			}
+		}
+		if mode == 0 && !aborted && cl.WriteErr == nil && model.WroteAll {
+			// the client delivered header and payload and half-closed: a handler that got the connection
+			// behind the header reads to a clean EOF (a left-over header deadline, a closed or reset
+			// connection shows as another error)
+			for _, st := range model.Recorders {
+				if st.Done && st.Err != nil && st.Err != io.EOF && !st.Bad {
+					fail("read-error", "%s behind the proxy_protocol handler (handler timeout %v) read %d bytes from offset %d of %d and then failed with %q; the client wrote everything (last chunk delay %v) and half-closed",
+						st.Name, ppTimeout, st.Got, st.Start, len(model.App), st.Err, cl.Plan.Chunks[len(cl.Plan.Chunks)-1].Delay)
 					return
 				}
 			}
@@ -544,4 +586,13 @@ func chunkSizes(cs []worlds.Chunk, n int) []int {
 		out = append(out, c.N)
 	}
 	return out
+}
+
+func calledHandler(m *worlds.ConnModel, name string) bool {
+	for _, hc := range m.HandlerCalls {
+		if hc.Handler == name {
+			return true
+		}
+	}
+	return false
 }
